@@ -616,7 +616,13 @@ func c06Rescale(c *lib.Ctx) {
 			n = e.keyGroups
 		}
 		chain += "->" + fmt.Sprint(n)
-		e.deployAssembly(n, jc, r.Intn(3) == 0)
+		// Operator ids are random per process (ksuid): an id, and with it a directory, survives a rescale only when the
+		// same process is redeployed in place — the known finding. Such a member restores whatever checkpoints cover its
+		// NEW range, possibly none of its own, and then writes tables under names its previous deployment already used
+		// and that other members still read (seen as EOF / unexpected EOF in their compactions, 29 of 22750 thorough
+		// cases). While the finding is listed every assembly gets fresh ids.
+		reuse := r.Intn(3) == 0
+		e.deployAssembly(n, jc, reuse && !lib.Known("in-place-redeploy"))
 		e.touchAll() // every restored key is handed to the handler at least once: lost / foreign state shows here
 		e.history(20 + r.Intn(80))
 		jc = e.jobCheckpoint()
